@@ -15,7 +15,6 @@ ASSUMPTIONS = ['the automaton encodes exactly the clauses of the statement; what
                'stream id reuse is accepted once the previous stream with that id has terminated']
 DECIDING_REQUIRED = ('sends_judged', 'cancel_frames_seen', 'error_frames_seen', 'streams_terminated')
 BUDGET_S = {'quick': 100, 'thorough': 1800}
-CASE_WALL_LIMIT = {'quick': 60, 'thorough': 180}
 
 
 def plan(tier, seed):
